@@ -1,46 +1,28 @@
-import sys, time
+import sys, traceback
 sys.path.insert(0, "/verif")
-from lib import env; env.setup()
-from migen import *
-from litex.soc.cores.ecc import *
-from lib.bench.kernel import Bench
-
-class Top(Module):
-    def __init__(self, k):
-        m, n = compute_m_n(k)
-        self.flip = Signal(n+1)
-        self.submodules.enc = ECCEncoder(k)
-        self.submodules.dec = ECCDecoder(k)
-        self.comb += self.dec.i.eq(self.enc.o ^ self.flip)
-
-class Ag:
-    def __init__(self, top, vecs):
-        self.top, self.vecs = top, vecs
-        self.out = []
-    def signals(self):
-        t = self.top
-        return [t.dec.o, t.dec.sec, t.dec.ded, t.enc.o]
-    def step(self, v, c):
-        t = self.top
-        if c >= 1:
-            self.out.append((v[t.dec.o], v[t.dec.sec], v[t.dec.ded], v[t.enc.o]))
-        if c < len(self.vecs):
-            d, f, e = self.vecs[c]
-            return {t.enc.i: d, t.flip: f, t.dec.enable: e}
-    def done(self):
-        return len(self.out) >= len(self.vecs)
-
-import random
-for k in [int(a) for a in sys.argv[1:]]:
-    t0 = time.time()
-    top = Top(k)
-    m, n = compute_m_n(k)
-    N = 20
-    vecs = [(random.getrandbits(k), 1 << random.randrange(n+1), 1) for _ in range(N)]
-    b = Bench(top, cap=100000)
-    a = b.add(Ag(top, vecs))
-    t1 = time.time()
-    b.run()
-    t2 = time.time()
-    ok = all(o[0] == v[0] for o, v in zip(a.out, vecs))
-    print(k, n, m, "build %.2f" % (t1-t0), "per eval %.4f" % ((t2-t1)/N), ok, len(a.out))
+from lib import env
+env.setup()
+from props import c13, c13mon as mon
+M = mon.build()
+GP = M["GP"]
+from lib.collect import rng_for
+rng = rng_for("x")
+desc, mk = c13.gen_platform_desc(rng, False)
+io = c13.build_io(GP, desc["io"])
+GP.ConstraintManager = M["MonCM"]
+try:
+    p = GP.GenericPlatform("verif-device", io, [tuple(c) for c in desc["connectors"]], name="verif")
+    print("ok", type(p.constraint_manager))
+except Exception:
+    traceback.print_exc()
+from litex.soc.integration import soc_core
+from litex.build.generic_platform import GenericPlatform, Pins
+try:
+    plat = GenericPlatform("verif-device", [("clk", 0, Pins("A1"))], name="verif")
+    soc = soc_core.SoCCore(plat, clk_freq=int(50e6), cpu_type=None, bus_standard="wishbone",
+                                   bus_data_width=32, csr_address_width=14,
+                                   csr_paging=0x800, integrated_rom_size=0,
+                                   integrated_sram_size=0x1000, with_uart=False, with_timer=True, with_ctrl=True,
+                                   ident="", ident_version=False)
+except Exception:
+    traceback.print_exc()
